@@ -13,7 +13,7 @@ RULE = ("fault enumeration: every single-fault mutation of a valid call from the
         "the full taxonomy x classes; distinct by (fault, class)")
 EXHAUSTIVE = {"quick": True, "thorough": True}
 FAULTS = ["numpy_input", "list_of_numpy", "none_input", "unknown_dim", "empty_dim", "all_dims_sample", "dim_wrong_type",
-          "n_modes_zero", "n_modes_negative", "n_modes_float_gt1", "n_modes_str", "n_modes_none", "n_modes_list", "n_modes_gt_rank",
+          "n_modes_zero", "n_modes_negative", "n_modes_float_zero", "n_modes_float_negzero", "n_modes_float_negative", "n_modes_float_gt1", "n_modes_str", "n_modes_none", "n_modes_list", "n_modes_gt_rank",
           "alpha_negative", "unknown_solver",
           "tf_numpy", "tf_missing_dim", "tf_missing_sample_dim", "tf_extra_dim", "tf_renamed_dim", "tf_shifted_coord", "tf_revalued_coord", "tf_fewer_features",
           "tf_dropped_variable", "tf_list_shorter", "tf_list_longer", "tf_da_for_list",
@@ -123,7 +123,8 @@ def run(case):
     elif fault == "dim_wrong_type":
         res = outcome(lambda: fit(dim=3))
     elif fault.startswith("n_modes"):
-        v = {"n_modes_zero": 0, "n_modes_negative": -2, "n_modes_float_gt1": 2.5, "n_modes_str": "many", "n_modes_none": None, "n_modes_list": [2],
+        v = {"n_modes_zero": 0, "n_modes_negative": -2, "n_modes_float_zero": 0.0, "n_modes_float_negzero": -0.0, "n_modes_float_negative": -0.25,
+             "n_modes_float_gt1": 2.5, "n_modes_str": "many", "n_modes_none": None, "n_modes_list": [2],
              "n_modes_gt_rank": 500}[fault]
         c2 = dict(cfg, n_modes=v)
         res = outcome(lambda: fit(cfg=c2))
